@@ -4,11 +4,18 @@
 // This file contains comments only; it is compiled only under the build tag "verif".
 package args
 
+// NAME=value is split at the first '=' only: the parts re-assemble to the argument and NAME contains no '='.
 //@ func splitVar
 //@   sweep                                                          [C16]
 //@   pure allocates
 //@   requires strContains(s, "=")
+//@   ensures result.0 + "=" + result.1 == s && !strContains(result.0, "=")                           [C19]
 //@ func Parse
 //@   sweep                                                          [C16]
+// Every argument after "--" is shell-quoted on its own, in order; arguments before it are returned untouched.
 //@ func Get
 //@   sweep                                                          [C16]
+//@   loop 1 invariant len(quotedCliArgs) == $i && forall k {quotedCliArgs[k]} :: 0 <= k && k < $i ==>
+//@          quotedCliArgs[k] == shQuote(args[doubleDashPos + k])                                     [C19]
+//@   ensures result.2 == nil && doubleDashPos != 0 - 1 ==> len(result.1) == len(args) - doubleDashPos
+//@          && forall k {result.1[k]} :: 0 <= k && k < len(result.1) ==> result.1[k] == shQuote(args[doubleDashPos + k])  [C19]
